@@ -24,6 +24,9 @@ Invariants (all C12)
 - output-key-equals-reference (sampled evidence): BIP341 transcription.
 - altered-proof-rejected: one bit flipped in transit in control block, leaf
   script or output key is answered False / refused with a library error.
+- altered-spend-rejected-by-engine: the same altered (output key, script,
+  control block) inside a script-path spend is refused by verify_input,
+  whatever leaf version the altered control block names.
 Probe only (never asserted): a tree deeper than the limit being refused by
 the producer.
 """
@@ -166,13 +169,21 @@ def run(ctx: Ctx) -> None:
         ctx.log("proof", n, f"depth={depths[n]}", len(control), ok)
         ctx.probe(f"proved-depth:{depths[n] if depths[n] >= 100 else min(depths[n], 9)}")
         version, raw = leaves[n]
-        if version & 0xFE == 0xC0 and raw in LEAF_SCRIPTS:
-            # an anyone-can-spend leaf: the whole spend goes to the engine
-            prevouts = [TxOut(10_000, b"\x51\x20" + q)]
-            tx = Tx(2, 0, [TxIn(OutPoint(b"\x33" * 32, 0), b"", 0xFFFFFFFD, Witness([script, control]))], [TxOut(9_000, b"\x00\x14" + bytes(20))])
+        # the whole spend goes to the engine: an anyone-can-spend leaf under the tapscript version, any script under
+        # another even version (BIP341: an unknown leaf version succeeds once the control block has proved the leaf)
+        engine = raw in LEAF_SCRIPTS or version & 0xFE != 0xC0
+
+        def spend(out_key: bytes, scr: bytes, cb: bytes) -> tuple[list[TxOut], Tx]:
+            return (
+                [TxOut(10_000, b"\x51\x20" + out_key)],
+                Tx(2, 0, [TxIn(OutPoint(b"\x33" * 32, 0), b"", 0xFFFFFFFD, Witness([scr, cb]))], [TxOut(9_000, b"\x00\x14" + bytes(20))]),
+            )
+
+        if engine:
+            prevouts, tx = spend(q, script, control)
             with ctx.must_succeed(P12, "spend-accepted-by-engine", "verify_input"):
                 verify_input(prevouts, tx, 0)
-            ctx.probe("engine-accepted-script-path")
+            ctx.probe("engine-accepted-script-path" if version & 0xFE == 0xC0 else "engine-accepted-other-leaf-version")
         if faulty:
             for _ in range(3):
                 target = ch.pick(["control-block", "leaf-script", "output-key", "parity-or-version"], "flip.target")
@@ -196,6 +207,22 @@ def run(ctx: Ctx) -> None:
                     P12, "altered-proof-rejected", answer is False or (isinstance(answer, str) and not answer.startswith("non-library")),
                     lambda: f"{target} altered on a depth-{depths[n]} proof: check_output_pubkey answered {answer}", site=target,
                 )
+                if engine:
+                    # the same altered proof inside a spend: the engine refuses it, whatever leaf version the
+                    # altered control block now names
+                    prevouts, tx = spend(*args)
+                    try:
+                        verify_input(prevouts, tx, 0)
+                        verdict = "accepted"
+                    except LIB as e:
+                        verdict = f"refused {type(e).__name__}"
+                    except Exception as e:  # noqa: BLE001
+                        verdict = f"non-library {type(e).__name__}: {e}"
+                    ctx.probe(f"engine-on-altered-{target}:{verdict.split()[0]}")
+                    ctx.check(
+                        P12, "altered-spend-rejected-by-engine", verdict.startswith("refused"),
+                        lambda: f"{target} altered on a depth-{depths[n]} script-path spend (leaf version {version:#x}): verify_input {verdict}", site=target,
+                    )
     # beyond the limit: whatever the producer does is logged, never judged
     if ch.draw(8, "too-deep?") == 0:
         deep, _ = _caterpillar(ch, 129, pool)
